@@ -172,9 +172,18 @@ def run(ctx):
                {int(x) for x in re.findall(r'_(\d+)', ' '.join(reach_locals(du, val)))}, at=t.span)
 
     # r3 clear after commit
+    # (F48) the pending records are discarded in the batch that holds the scripts and the rewind: a separate write after the
+    # commit leaves, when the process dies in between, a stale record whose completion marks the new scripts as filtered up to its end
     cl = P.call_sites(F, 'Storage::clear_matched_blocks')
-    ctx.ob('C09.r3', F.name, 'clear_matched_blocks post-dominates batch.commit', bool(cl) and cfg.postdominates(cl[0][0], commit[0][0]),
-           at=cl[0][1].span if cl else commit[0][1].span, clear_calls=len(cl))
+    same_batch = False
+    if cl and commit:
+        a = {o[1] for o in du.origins(cl[0][1].args[1]) if o[0] == 'local'} | set(re.findall(r'_\d+', cl[0][1].args[1]))
+        b = {o[1] for o in du.origins(commit[0][1].args[0]) if o[0] == 'local'} | set(re.findall(r'_\d+', commit[0][1].args[0]))
+        roots = lambda xs: {x for v in xs for x in reach_locals(du, v if str(v).startswith('_') else '_%s' % v)}
+        same_batch = bool(roots(a) & roots(b))
+    ctx.ob('C09.r3', F.name, 'the pending matched-blocks records are deleted in the batch of the scripts, before its commit',
+           bool(cl) and cfg.dominates(cl[0][0], commit[0][0]) and same_batch,
+           at=cl[0][1].span if cl else commit[0][1].span, clear_calls=len(cl), same_batch=same_batch)
     S = ctx.body('<BlockFilterRpcImpl as BlockFilterRpc>::set_scripts')
     scfg = P.cfg(S)
     uf = P.call_sites(S, UFS)
@@ -182,6 +191,16 @@ def run(ctx):
     ctx.floor('C09.r3', 'update_filter_scripts in set_scripts', len(uf), 1)
     ctx.ob('C09.r3', S.name, 'in-memory matched blocks are cleared after the store was updated', bool(hc) and scfg.postdominates(hc[0][0], uf[0][0]),
            at=uf[0][1].span, clear_calls=len(hc))
+    # (F46) store and memory agree on what is pending: if update_filter_scripts can return without discarding the records (the
+    # empty partial / delete list), set_scripts must have a path that keeps the in-memory map as well (and does not touch the store)
+    rets_u = [bid for bid, blk in F.blocks.items() if not blk.cleanup and blk.term.kind == 'return']
+    noop_u = bool(cl) and any(r in cfg.reachable_from([cfg.entry], removed_nodes={b for b, _ in cl}) for r in rets_u)
+    rets_s = [bid for bid, blk in S.blocks.items() if not blk.cleanup and blk.term.kind == 'return']
+    noop_s = any(r in scfg.reachable_from([scfg.entry], removed_nodes={b for b, _ in uf} | {b for b, _ in hc}) for r in rets_s)
+    ctx.ob('C09.r3', S.name, 'set_scripts keeps the in-memory pending blocks exactly when the store keeps its pending records (empty partial / delete list)',
+           noop_u == noop_s, store_can_keep_records=noop_u, rpc_can_keep_memory=noop_s,
+           failing_history=None if noop_u == noop_s else 'a matched block of batch [31,32] is pending; set_scripts([], partial): records kept, memory cleared; the next batch [33,34] '
+           'without a match sees an empty map and raises every script to 34; block 31, recovered and downloaded later, is skipped for them')
     # r4 lock
     from engine.locks import Locks
     L = Locks(P)
